@@ -376,8 +376,117 @@ func c18Misc(w *run.Worker) {
 	}
 }
 
+// (f) the truthiness table on v2: every pair of representatives in if/elif/else, each as a for
+// condition, under `!`, and as the condition of a loop whose counter steps through fractions
+func c18Truthiness(w *run.Worker) {
+	I, S, Id := rt.Int, rt.Str, rt.Id
+	conds := []nodeFn{
+		func() *rt.Node { return rt.Nil() },
+		func() *rt.Node { return I(0) }, func() *rt.Node { return I(1) }, func() *rt.Node { return I(-3) },
+		func() *rt.Node { return rt.Float(0) }, func() *rt.Node { return rt.Float(0.5) }, func() *rt.Node { return rt.Float(0.99) }, func() *rt.Node { return rt.Float(-0.75) }, func() *rt.Node { return rt.Float(1.5) },
+		func() *rt.Node { return S("") }, func() *rt.Node { return S("a") }, func() *rt.Node { return S("0") },
+		func() *rt.Node { return rt.List() }, func() *rt.Node { return rt.List(I(0)) },
+		func() *rt.Node { return rt.Map() }, func() *rt.Node { return rt.Map(S("a"), I(0)) },
+		func() *rt.Node { return rt.Bool(true) }, func() *rt.Node { return rt.Bool(false) },
+		func() *rt.Node { return Id("x") },  // variable holding 0
+		func() *rt.Node { return Id("hf") }, // variable holding 0.5
+		func() *rt.Node { return rt.Bin("<", Id("x"), I(2)) },
+		func() *rt.Node { return rt.Un("!", Id("hf")) },
+		func() *rt.Node { return rt.Call("one") },
+		func() *rt.Node { return rt.Call("id", rt.Float(0.25)) },
+		func() *rt.Node { return rt.Bin("/", rt.Float(1), I(4)) },
+		func() *rt.Node { return rt.Float(-0.0) },
+		func() *rt.Node { return rt.Float(1e-20) }, func() *rt.Node { return rt.Float(-3e-300) }, func() *rt.Node { return rt.Float(5e-324) },
+	}
+	pre := func() []*rt.Node {
+		return []*rt.Node{rt.Assign("=", Id("x"), I(0)), rt.Assign("=", Id("hf"), rt.Float(0.5))}
+	}
+	for _, c1 := range conds {
+		for _, c2 := range conds {
+			if !w.Take() {
+				continue
+			}
+			c18Exec(w, "truthiness", append(pre(),
+				rt.If(c1(), rt.Block(rt.Call("p", I(1))), c2(), rt.Block(rt.Call("p", I(2))), rt.Block(rt.Call("p", I(3)))),
+				rt.Call("p", I(4))), "")
+		}
+		if w.Take() {
+			c18Exec(w, "truthiness-for", append(pre(),
+				rt.For(rt.Assign("=", Id("i"), I(0)), c1(), rt.Assign("=", Id("i"), rt.Bin("+", Id("i"), I(1))),
+					rt.Block(rt.Call("p", Id("i")), rt.If(rt.Bin(">=", Id("i"), I(1)), rt.Block(rt.Break())))),
+				rt.Call("p", Id("i"))), "")
+		}
+		if w.Take() {
+			c18Exec(w, "truthiness-not", append(pre(), rt.If(rt.Un("!", rt.Normalize(rt.Paren(c1()))), rt.Block(rt.Call("p", I(1))), rt.Block(rt.Call("p", I(2))))), "")
+		}
+	}
+	if w.Take() {
+		// a counter stepping 1.5, 1.0, 0.5, 0.0 as the loop condition
+		c18Exec(w, "truthiness-countdown", []*rt.Node{
+			rt.For(rt.Assign("=", Id("c"), rt.Float(1.5)), Id("c"), rt.Assign("=", Id("c"), rt.Bin("-", Id("c"), rt.Float(0.5))), rt.Block(rt.Call("p", Id("c")))),
+			rt.Call("p", Id("c"))}, "")
+	}
+}
+
+// (g) for-in on v2: list order, string characters (not bytes), every map key once, loop variable and
+// body-local names, break/continue
+func c18ForIn(w *run.Worker) {
+	I, S, Id := rt.Int, rt.Str, rt.Id
+	iters := []nodeFn{
+		func() *rt.Node { return rt.List(I(1), I(2)) },
+		func() *rt.Node { return rt.List() },
+		func() *rt.Node { return rt.List(rt.List(I(1)), S("s"), rt.Nil(), rt.Float(1.5), rt.Bool(true)) },
+		func() *rt.Node { return S("ab") },
+		func() *rt.Node { return S("") },
+		func() *rt.Node { return S("é!") },
+		func() *rt.Node { return S("a\u00e9b") },
+		func() *rt.Node { return S("\u65e5\u672c\u8a9ex") },
+		func() *rt.Node { return S("\U0001d4b3y") },
+		func() *rt.Node { return rt.Map(S("k"), I(1)) },
+		func() *rt.Node { return rt.Map(S("a"), I(1), S("b"), I(2)) },
+		func() *rt.Node { return rt.Map() },
+		func() *rt.Node { return Id("lst") },
+		func() *rt.Node { return Id("txt") },
+		func() *rt.Node { return rt.Slice(Id("lst"), I(1), nil, nil, false) },
+		func() *rt.Node { return rt.Slice(Id("txt"), I(1), nil, nil, false) },
+		func() *rt.Node { return Id("n") },   // an int
+		func() *rt.Node { return Id("nul") }, // nil
+	}
+	bodies := []func() []*rt.Node{
+		func() []*rt.Node { return []*rt.Node{rt.Call("p", Id("v"))} },
+		func() []*rt.Node { return []*rt.Node{rt.Call("p", Id("v")), rt.Continue(), rt.Call("p", I(0))} },
+		func() []*rt.Node { return []*rt.Node{rt.Call("p", Id("v")), rt.Break(), rt.Call("p", I(0))} },
+		func() []*rt.Node {
+			return []*rt.Node{rt.Assign("=", Id("n"), rt.Bin("+", Id("n"), I(1))), rt.Assign("=", Id("acc"), rt.Bin("+", Id("acc"), rt.List(Id("v")))), rt.Call("p", Id("n"))}
+		},
+		func() []*rt.Node {
+			return []*rt.Node{rt.If(rt.Bin("==", Id("v"), S("\u00e9")), rt.Block(rt.Call("p", S("e-acute")))), rt.If(rt.Bin("in", Id("v"), Id("txt")), rt.Block(rt.Call("p", S("in"))))}
+		},
+		func() []*rt.Node {
+			return []*rt.Node{rt.ForIn("u", S("\u00e9z"), rt.Block(rt.Call("p", Id("v"), Id("u"))))}
+		},
+		func() []*rt.Node { return nil },
+	}
+	for _, it := range iters {
+		for _, b := range bodies {
+			if !w.Take() {
+				continue
+			}
+			stmts := []*rt.Node{
+				rt.Assign("=", Id("n"), I(0)), rt.Assign("=", Id("nul"), rt.Nil()), rt.Assign("=", Id("acc"), rt.List()), rt.Assign("=", Id("v"), S("before")),
+				rt.Assign("=", Id("lst"), rt.List(I(5), S("\u00e9"), I(7))), rt.Assign("=", Id("txt"), S("x\u00e9\u65e5")),
+				rt.ForIn("v", it(), rt.Block(b()...)),
+				rt.Call("p", Id("n"), Id("acc"), Id("v")),
+			}
+			c18Exec(w, "for-in", stmts, "")
+		}
+	}
+}
+
 func c18Run(w *run.Worker) {
 	d := dctx{id: "C18", diff: DifferentialV2, v2: true}
+	c18Truthiness(w)
+	c18ForIn(w)
 	c18Misc(w)
 	c18NoValue(w)
 	c18Tuples(w)
@@ -426,7 +535,7 @@ func init() {
 		ID:    "C18",
 		Level: "model_checking",
 		Rule: "on the v2 interpreter with probe functions p (variadic), void, one, two, id supplied through the function table: " +
-			"(1) 52 value positions (assignment sources, both operands of every operator, conditions, list/map elements, index keys, slice bounds, call arguments, for-in iterable, ...) x 7 constructs without a single value (void(), void(7), attribute expression, p(), two(), ...) x 10 preceding statements that leave different values behind; " +
+			"(0) the truthiness table (29 representatives incl. fractions between -1 and 1 and denormals; all pairs in if/elif/else, each as a for condition and under !, a counter stepping through fractions) and for-in over 18 iterables (lists, strings with 2-, 3- and 4-byte characters, maps, slices, non-iterables) x 7 bodies; (1) 52 value positions (assignment sources, both operands of every operator, conditions, list/map elements, index keys, slice bounds, call arguments, for-in iterable, ...) x 7 constructs without a single value (void(), void(7), attribute expression, p(), two(), ...) x 10 preceding statements that leave different values behind; " +
 			"(2) all tuple assignments of 1..3 targets from 8 targets x 1..3 sources from 11 sources (swaps, index targets, two(), void(), arity mismatches, undefined names); " +
 			"(3) the C02 operator table (literal and variable operands) and probed expression trees, the C04 slice table / index paths / aliasing sequences, and every control-flow program of size <=3 (thorough <=4), all against the reference in its v2 dialect (undefined name = error, whole right side evaluated before assigning, no-value in a value position = error)",
 		Assumptions: []string{"functions declare their return values in FnDesc.Returns (the probe table does)"},
